@@ -20,11 +20,35 @@ REQUIRED = [
     "DaeVerif.C20.Props.internal_steps_terminate",
     "DaeVerif.C20.Props.pending_implies_progress_possible",
     "DaeVerif.C20.Props.eventually_accepts_again",
+    "DaeVerif.C20.Props.retirement_done_within_budget",
+    "DaeVerif.C20.Props.drain_wait_bounded",
+    "DaeVerif.C20.Props.retirement_step_starts_clock",
+    "DaeVerif.C20.Props.retirement_clock_bounded",
+    "DaeVerif.C20.Props.time_stops_at_retirement_deadline",
+    "DaeVerif.C20.Props.blocked_release_waits_at_most_budget",
     "DaeVerif.C20.Props.answered_full",
     "DaeVerif.C20.Props.answer_written_before_release",
 ]
 
 KNOWN_STALE_BUSY = "c20-stale-busy-after-release"
+
+
+def ret_admits(im, mo):
+    """retirement stream: `res=` / `aborted=` on the model side are sets (Go's select may pick any
+    ready case when events coincide); everything else must be equal."""
+    a, b = im.split(), mo.split()
+    if len(a) != len(b):
+        return False
+    for x, y in zip(a, b):
+        if x == y:
+            continue
+        if "=" in x and "=" in y:
+            kx, vx = x.split("=", 1)
+            ky, vy = y.split("=", 1)
+            if kx == ky and kx in ("res", "aborted") and vx in vy.split("|"):
+                continue
+        return False
+    return True
 
 
 def schedule_upto(ops, lineno):
@@ -45,8 +69,12 @@ def run(ctx):
         "go/ast-extracted statement paths, compared with the model's tables on every run and replayed statement by statement on the real reloadManager",
         "the go/ast extractor (harness/overlay/cmd/c20_paths_test.go): which calls it recognises as effects; any unrecognised call on reloadManager / "
         "reload helpers yields a `?` token that fails the path comparison",
-        "liveness is relative to: the ready wait returns (it has a 45 s timer), a retirement goroutine finishes (drain budget timer; ControlPlane.Close may block), "
-        "goroutines are scheduled fairly; Go runtime signal delivery (signal.Notify drops signals when the 1-slot channel is full)",
+        "liveness is relative to: fair scheduling of goroutines; the serve-ready wait returns (45 s timer, not executed under a clock); "
+        "ControlPlane.Close inside the retirement goroutine returns (it has its own 5 s + janitor bounds, not modelled); Go runtime signal delivery. "
+        "Retirement completion itself is no longer assumed: the real startControlPlaneRetirement/waitForControlPlaneDrain run under testing/synctest "
+        "virtual time against the model's clock (retireDoneAt <= max(budget,0) <= reloadTotalSwitchBudget)",
+        "the retiring old generation in the retirement stream is a ControlPlane carrying only the real drain tracker (overlay accessor "
+        "harness/overlay/control/c20_access.go); its sessions end when the scenario says, not because AbortConnections closed them",
         "after the suppression counter returns to 0 the dialer keeps reports muted for a further fixed window (reloadFailureQuiesce); only the counter is modelled",
         "overlay accessor harness/overlay/component/outbound/dialer/c20_access.go reads the real counter",
     ]
@@ -54,8 +82,10 @@ def run(ctx):
     ctx.required_theorems(REQUIRED)
 
     access = os.path.join(VERIF, "harness", "overlay", "component", "outbound", "dialer", "c20_access.go")
-    binp = ctx.go_test_build("cmd", ["cmd/c20_test.go", "cmd/c20_paths_test.go"], "c20",
-                             extra_overlay={os.path.join(REPO, "component", "outbound", "dialer", "zz_verif_c20_access.go"): access})
+    access2 = os.path.join(VERIF, "harness", "overlay", "control", "c20_access.go")
+    binp = ctx.go_test_build("cmd", ["cmd/c20_test.go", "cmd/c20_paths_test.go", "cmd/c20_retire_test.go"], "c20",
+                             extra_overlay={os.path.join(REPO, "component", "outbound", "dialer", "zz_verif_c20_access.go"): access,
+                                            os.path.join(REPO, "control", "zz_verif_c20_access.go"): access2})
     if not binp:
         return 2
     rc, out = ctx.run_harness(binp, "TestVerifC20")
@@ -65,7 +95,7 @@ def run(ctx):
 
     n_eval = 0
     distinct = set()
-    for label in ("c20paths", "c20"):
+    for label in ("c20paths", "c20ret", "c20"):
         ops, impl, model = (os.path.join(ctx.out, label + "." + e) for e in ("ops", "impl", "model"))
         if not os.path.exists(ops):
             ctx.say("HARNESS-FAILED no stream", label)
@@ -75,8 +105,28 @@ def run(ctx):
         mism = ctx.diff_streams(ops, impl, model, label)
         lo, li = read_lines(ops), read_lines(impl)
         n_eval += len(lo)
+        if label == "c20ret":
+            nrep = 0
+            real = [(ln, op, im, mo) for ln, op, im, mo in mism if not (ln and ret_admits(im, mo))]
+            # headline first: a whole retirement that never completes (the daemon is wedged)
+            real.sort(key=lambda x: (0 if (x[1].startswith("retire") and "never" in x[2]) else 1, x[0]))
+            for ln, op, im, mo in real:
+                nrep += 1
+                if nrep > 4:
+                    break
+                never = "never" in im
+                ctx.report(
+                    ("the old generation's retirement does not complete" if never else "the old generation's retirement differs from the model's clock")
+                    + f": `{op}` -> real code `{im}`, model `{mo}`"
+                    + (" — retirementDone is never closed: pending stays set, suppression is never lifted, every later reload/suspend is refused busy" if never and op.startswith("retire") else ""),
+                    {"stream": label, "line": ln, "scenario": op, "impl": im, "model": mo,
+                     "replay": "VERIF_SEED=%d ./check C20 %s" % (ctx.seed, ctx.tier)})
+            ctx.cov["streams"][label]["mismatches"] = nrep
+            for op in lo:
+                distinct.add(op)
+            continue
         if label == "c20paths":
-            for ln, op, im, mo in mism[:6]:
+            for ln, op, im, mo in mism[:4]:
                 ctx.report(
                     f"cmd/run.go no longer follows the modelled reload paths: `{op}` -> model says `{mo}` "
                     f"(a path of the worker / run-state handler changed its flag effects, or a modelled path disappeared)",
